@@ -24,6 +24,7 @@ pub struct Case {
 
 /// Emits the `chk` and `csp` ops for one (list, request) pair.
 pub fn emit(out: &mut Out, case: &Case, engine: &Engine, rules: &[PRule], resources: &[Resource], q: &Req, what: &str) {
+    crate::c11::emit_plines(out, &case.lines);
     let res = engine.check_network_request(&q.req);
     let csp = engine.get_csp_directives(&q.req);
     let dumps: Vec<String> = rules.iter().map(|pr| dump_rule(&pr.f, rx_hint(&pr.f, &q.req))).collect();
